@@ -12,6 +12,7 @@ from engine.pathsym import PathSym, par_explore
 from engine.universe import World
 
 INVV = z3.Int("invocation")
+LOGV = z3.Bool("client_used_on_this_store_before")
 CONTENT_K = 1
 
 
@@ -148,8 +149,28 @@ def both(ps, w, C):
     n = ps.choose(INVV, 0, len(inv))
     label, argv, api, kind = inv[n]
     pre = w.pre()
+    # the client may have been used on this store before (its log file is then already there)
+    used_before = ps.decide(LOGV)
+    if used_before:
+        if w.mode == "native":
+            open(w.scratch + "/s/python_client.log", "w").close()
+        else:
+            w.F.b.create("/s/python_client.log", b"")
+    if w.mode == "native":
+        um0 = os.umask(0o022)
+        os.umask(um0)
+    else:
+        um0 = w.F.umask
     rA, outA = run_client(w, C, argv)
     postA = w.post()
+    modesA = tree_modes(w)
+    if w.mode == "native":
+        um1 = os.umask(um0)
+    else:
+        um1 = w.F.umask
+    if um1 != um0:
+        # what an API call never does: everything the process creates afterwards gets other permission bits
+        bad.append(("client-leaves-the-process-umask-changed", "%s -> %s" % (oct(um0), oct(um1))))
     probsA = [p for p in postA["problems"] if not (p[0] == "foreign-file" and p[1].endswith("python_client.log"))]
     # copy B: the API with the same values
     w.build(ps)
@@ -163,6 +184,11 @@ def both(ps, w, C):
     except Exception as e:   # noqa
         rB, vB = type(e).__name__, e
     postB = w.post()
+    modesB = tree_modes(w)
+    if modesA != modesB:
+        d_ = sorted(k for k in set(modesA) | set(modesB) if modesA.get(k) != modesB.get(k))
+        bad.append(("client-and-api-permission-bits-differ",
+                    [(k, oct(modesA.get(k, 0)), oct(modesB.get(k, 0))) for k in d_[:3]]))
     okA, okB = rA == "ok", rB == "ok"
     if okA != okB:
         if kind == "typed" or okA:
@@ -192,9 +218,28 @@ def both(ps, w, C):
             bad.append(("client-output-lacks-api-result", missing[:2]))
     rec = dict(label=label, rA=rA, rB=rB, bad=bad, n=n)
     if bad:
-        rec["vals"] = ps.model_values(w.statevars + [INVV])
+        rec["vals"] = ps.model_values(w.statevars + [INVV, LOGV])
         rec["relation"] = step._rel_pid(w, rec["vals"], 0)
     return rec
+
+
+def tree_modes(w):
+    """permission bits of every directory and file the call created or chmod-ed below the store root (the client's
+    own log file aside)"""
+    if w.mode == "native":
+        out = {}
+        root = w.scratch + "/s"
+        for dp, dn, fn in os.walk(root):
+            for n_ in dn + fn:
+                full = os.path.join(dp, n_)
+                rel = full[len(root):]
+                if rel.endswith("python_client.log") or "/tmp" in rel:
+                    continue
+                out[rel] = os.stat(full).st_mode & 0o777
+        return out
+    return {k[len("/s"):]: v for k, v in w.F.modes.items()
+            if k.startswith("/s/") and not k.endswith("python_client.log") and "/tmp" not in k
+            and (w.F.b.isfile(k) or w.F.b.isdir(k))}
 
 
 def chs_roundtrip(run, tier):
@@ -280,7 +325,7 @@ def replay(tier, payload):
     try:
         C = loader.load("hashstoreclient.py")          # unpatched client, real argparse, real factory, real files
         pins = []
-        for v in w.statevars + [INVV]:
+        for v in w.statevars + [INVV, LOGV]:
             if str(v) in payload["vals"]:
                 x = payload["vals"][str(v)]
                 pins.append(v == (z3.BoolVal(x) if isinstance(x, bool) else z3.IntVal(x)))
